@@ -64,6 +64,8 @@ def ev(e, pt):
         raise Singular()
     if f == "tan" and abs(math.cos(u)) < 1e-6:
         raise Singular()
+    if f in ("sin", "cos", "tan", "sinc") and abs(u) > 100.:
+        raise Singular()      # oscillatory functions of large arguments: the rounding of the argument alone (u * 1e-16 * pi) exceeds the comparison tolerance
     if f in ("exp", "expm1", "sinh", "cosh", "exponentiate", "softplus") and abs(u) > 200:
         raise Singular()
     return {"exp": math.exp, "log": math.log, "log10": math.log10, "log1p": math.log1p, "expm1": math.expm1, "sin": math.sin, "cos": math.cos,
